@@ -126,6 +126,15 @@ def rules(ctx, tier):
     return out
 
 
+def is_incremental_update(ctx, w):
+    """`field = field +/- x` (in either MIR shape): an adjustment of the counter, not a recomputation."""
+    sl = Slicer(ctx.world, w.body, follow_local=False)
+    for l in sl.leaves_of_rv(w.rv, w.bb):
+        if l[0] == "binop" and l[1].startswith(("Add", "Sub")):
+            return True
+    return False
+
+
 def apply_bodies(ctx):
     return set(ctx.role_bodies().keys())
 
@@ -313,7 +322,8 @@ def load_rebuilds(ctx, r, loaders, cbs):
     stats_bodies = set()
     stats_field = A.get("STATS")
     for w in ctx.world.field_writes:
-        if w.rv["k"] == "use" and w.field[1] in ("types::CasStats",) or (w.rv["k"] == "use" and "Stats" in w.field[1]):
+        if (w.rv["k"] == "use" and w.field[1] in ("types::CasStats",) or (w.rv["k"] == "use" and "Stats" in w.field[1])) \
+                and not is_incremental_update(ctx, w):
             # plain assignment (not += / -=) of a counter: a recomputation
             if w.body.path not in apply_bodies(ctx):
                 stats_bodies.add(w.body.path)
@@ -496,6 +506,7 @@ def highest_version_accumulator(ctx, r):
             return bool(lv) and all(l[-1] and "version" in l[-1][-1] and l[0] == "call" for l in lv)
 
         n_init = n_upd = 0
+        larger_guards = []      # (switch, edge taken when the record's version exceeds the previous maximum)
         for (dbb, kind, x) in terminals(H):
             where = "%s:%d" % (b.file, b.blocks[dbb]["span"]["line"])
             if dbb not in in_loop:
@@ -529,9 +540,22 @@ def highest_version_accumulator(ctx, r):
                         if cc[0] in ("Gt", "Ge") and is_record_version(p) and from_H(q) and t_true is not None \
                                 and cfgutil.edge_dominates(b, (sw, t_true), dbb):
                             ok = True
+                            larger_guards.append((sw, t_true))
                         if cc[0] in ("Lt", "Le") and from_H(p) and is_record_version(q) and t_true is not None \
                                 and cfgutil.edge_dominates(b, (sw, t_true), dbb):
                             ok = True
+                            larger_guards.append((sw, t_true))
+                    # `previous.is_none_or(|prev| version > prev)`
+                    if c[0] == "call" and (c[1] or "").endswith("::is_none_or") and from_H(c[2]["args"][0]):
+                        csite = Site(b, c[4], c[2])
+                        for tg, how in prog.call_targets(csite):
+                            if how != "extern-cb" or not _closure_says_larger(ctx, b, sl, csite, tg, is_record_version):
+                                continue
+                            t_true, t_false = cfgutil.true_false_edges(b, sw)
+                            good = t_false if c[3] else t_true
+                            if good is not None and cfgutil.edge_dominates(b, (sw, good), dbb):
+                                ok = True
+                                larger_guards.append((sw, good))
                 r.check(ok, "highest-update:first", b,
                         "update at %s: record.version taken only when there is no previous maximum (or it is larger)" % where,
                         "the running maximum is overwritten with a record's version at %s without comparing it to the "
@@ -564,10 +588,72 @@ def highest_version_accumulator(ctx, r):
                     break
             if some_t is None:
                 continue
-            back = cfgutil.reach(b, some_t, removed_blocks=upd_blocks + list(outside))
+            # skipping the update because the record's version is not larger than the maximum is fine
+            skip_ok = [(sw, t) for (sw, good) in larger_guards for t in b.succs(sw) if t != good]
+            back = cfgutil.reach(b, some_t, removed_edges=skip_ok, removed_blocks=upd_blocks + list(outside))
             r.check(h.bb not in back, "highest-every-record", b,
                     "every record read in the loop at %s updates the running maximum before the next one is read" % site_where(h),
                     "a record can be read in the loop at %s without updating the running maximum" % site_where(h), site_where(h))
+
+
+def _closure_says_larger(ctx, b, sl, csite, tg, is_record_version):
+    """The closure handed to is_none_or returns `captured > its parameter` (or the mirrored form), the captured value
+    being the record's version."""
+    prog = ctx.prog
+    csl = Slicer(ctx.world, tg)
+    # the captured operands, in the parent
+    cap_ops = None
+    for a in csite.term["args"][1:]:
+        pl = place_of(a)
+        if pl is None or pl["p"]:
+            continue
+        for (dbb, j, rv) in b.assignments().get(pl["l"], []):
+            if j != "term" and rv["k"] == "agg" and rv.get("ak") == "closure":
+                cap_ops = rv["ops"]
+    if cap_ops is None:
+        return False
+
+    def side(op):
+        lv = csl.leaves_of_operand(op)
+        if len(lv) != 1:
+            return None
+        l = list(lv)[0]
+        if l[0] == "upvar" and l[1] < len(cap_ops):
+            return "record" if is_record_version(cap_ops[l[1]]) or _ref_of_record_version(b, sl, cap_ops[l[1]], is_record_version) else None
+        if l[0] == "param" and l[1] >= 2:
+            return "prev"
+        return None
+    for bb in tg.normal_blocks():
+        for st in tg.stmts(bb):
+            if st["k"] == "assign" and st["rv"]["k"] == "binop" and st["rv"]["op"] in ("Gt", "Ge", "Lt", "Le"):
+                x, y = side(st["rv"]["a"]), side(st["rv"]["b"])
+                if st["rv"]["op"] in ("Gt", "Ge") and x == "record" and y == "prev":
+                    return True
+                if st["rv"]["op"] in ("Lt", "Le") and x == "prev" and y == "record":
+                    return True
+        t = tg.blocks[bb]["term"]
+        if t["k"] == "call":
+            p = term_path(t)
+            if p in ("std::cmp::PartialOrd::gt", "std::cmp::PartialOrd::ge", "std::cmp::PartialOrd::lt", "std::cmp::PartialOrd::le"):
+                x, y = side(t["args"][0]), side(t["args"][1])
+                if p.endswith(("::gt", "::ge")) and x == "record" and y == "prev":
+                    return True
+                if p.endswith(("::lt", "::le")) and x == "prev" and y == "record":
+                    return True
+    return False
+
+
+def _ref_of_record_version(b, sl, op, is_record_version):
+    """`&entry.version` captured by reference."""
+    pl = place_of(op)
+    if pl is None or pl["p"]:
+        return False
+    for (dbb, j, rv) in b.assignments().get(pl["l"], []):
+        if j != "term" and rv["k"] == "ref":
+            lv = sl.leaves_of_place(rv["place"])
+            if lv and all(l[-1] and "version" in l[-1][-1] and l[0] == "call" for l in lv):
+                return True
+    return False
 
 
 def append_apply_atomic(ctx, r):
